@@ -453,6 +453,19 @@ val trace_log :
 
 val drag_command : opts -> ('a1, 'a2) state -> n list
 
+val out_forward :
+  (n list -> bool) -> (n list -> 'a2) -> opts -> ('a1, 'a2) state -> obs list
+  -> n list -> ('a1, 'a2) state * obs list
+
+val out_detect :
+  ('a1 -> n list -> (n list * 'a2 option) * 'a1) -> ('a2 -> bool) -> (n list
+  -> bool) -> (n list -> 'a3) -> opts -> ('a1, 'a3) state -> obs list -> n
+  list -> ('a1, 'a3) state * obs list
+
+val out_zmodem :
+  ('a2 -> n list -> bool * 'a2) -> opts -> ('a1, 'a2) state -> n list ->
+  (('a1, 'a2) state, ('a1, 'a2) state * obs list) sum
+
 val out_step :
   ('a1 -> n list -> (n list * 'a2 option) * 'a1) -> ('a2 -> bool) -> (n list
   -> bool) -> (n list -> 'a3) -> ('a3 -> n list -> bool * 'a3) -> n list -> n
